@@ -121,6 +121,16 @@ def corpus_sets():
             sets.append({"id": "corpus-import:" + ",".join(order), "files": {"import_core.pn": data}, "order": order, "kind": "corpus_import"})
     except OSError:
         pass
+    # misuse of a bundled package: the secondary label of the diagnostic lies
+    # inside a core:/vendor: file
+    misuse = [
+        ("core:text", b'import "core:text/char.pn";\n\nfn main() -> i32\n{\n\tvar t = is_control_char(1, 2);\n\tvar u = is_control_char(true);\n\treturn: 0\n}\n'),
+        ("vendor:libc", b'import "vendor:libc/stdlib.pn";\n\nfn main() -> i32\n{\n\tvar p = malloc(10, 1);\n\tfree(7);\n\treturn: 0\n}\n'),
+        ("vendor:libc/stdlib.pn", b'import "vendor:libc/stdlib.pn";\n\nfn abort()\n{\n}\n\nfn main() -> i32\n{\n\treturn: 0\n}\n'),
+    ]
+    for pkg, text in misuse:
+        for order in (["user.pn", pkg], [pkg, "user.pn"]):
+            sets.append({"id": "package-misuse:" + ",".join(order), "files": {"user.pn": text}, "order": order, "kind": "corpus_import"})
     return sets
 
 
@@ -201,6 +211,10 @@ def generated_set(seed, i):
                 files[sp.files[b]] += "\nfn zz_undef%d() -> i32\n{\n\treturn: missing_thing_%d\n}\n" % (b, b)
     if rng.random() < 0.3:
         rng.shuffle(names)
+    if rng.random() < 0.12:
+        # the same file given twice on the command line
+        names.insert(rng.randrange(len(names) + 1), rng.choice(names))
+        mistakes.append("duplicate_argument")
     enc = {k: v.encode() for k, v in files.items()}
     max_imports = max(len(sp.imports[m]) for m in range(sp.k))
     return {"id": "gen:%d" % i, "files": enc, "order": names, "kind": "generated", "mistakes": mistakes,
@@ -442,6 +456,11 @@ def evaluate_set(s, wd, cfg, rng, stats):
                     bad = sorted({c for c in text if ord(c) > 127 and c not in src_chars and c != "�"})
                     if bad:
                         viol.append(("ascii_arrows_has_non_ascii", "%s prints %r" % (where, bad[:8]), {}))
+    # rendering must find every source it quotes
+    for r in [x[3] for x in obs[:1]]:
+        if b"Unable to fetch source" in r.err:
+            m = re.search(rb"Unable to fetch source[^\n]*", r.err)
+            viol.append(("source_fetch_failed", "the report could not quote a source file: %s" % m.group(0).decode(errors="replace")[:200], {}))
     # D4: locations (rendered primary header)
     if not panicked and base_r.rc == 1:
         text = base_r.err.decode(errors="replace")
